@@ -15,18 +15,22 @@
 EXTENDS Integers, Sequences, FiniteSets, TLC
 
 CONSTANTS NE, Interval, SyncCons, MaxTime, Retain,
-          Faults    \* TRUE: the consumer's awaitable may raise
+          Faults,   \* TRUE: the consumer's awaitable may raise
+          Feedback  \* TRUE: a cycle through the node (examples/fib_*.py): the consumer may emit the next element into the
+                    \* source while it is being handed the current one -- an arrival in the middle of a delivery
 
 VARIABLES arrived, st, slotAt, arrAt, next, now, delivered, busy, rc, fired, emitDone,
           up     \* the element whose update() call is still running synchronously inside the
                  \* upstream's _emit (which holds its own reference around the call); 0: none
-vars == <<arrived, st, slotAt, arrAt, next, now, delivered, busy, rc, fired, emitDone, up>>
+VARIABLES upOuter \* [Feedback] the element whose update() call is interrupted, in the middle of handing it to the consumer, by
+                  \* the update() call of `up`; 0: none
+vars == <<arrived, st, slotAt, arrAt, next, now, delivered, busy, rc, fired, emitDone, up, upOuter>>
 Elems == 1 .. NE
 
 Init ==
     /\ arrived = 0 /\ st = [e \in Elems |-> "none"] /\ slotAt = [e \in Elems |-> 0] /\ arrAt = [e \in Elems |-> 0]
     /\ next = 0 /\ now = 0 /\ delivered = <<>> /\ busy = {} /\ rc = [e \in Elems |-> 0] /\ fired = <<>>
-    /\ emitDone = [e \in Elems |-> FALSE] /\ up = 0
+    /\ emitDone = [e \in Elems |-> FALSE] /\ up = 0 /\ upOuter = 0
 
 Max(a, b) == IF a > b THEN a ELSE b
 
@@ -38,7 +42,9 @@ Arrive(e) ==
     /\ slotAt' = [slotAt EXCEPT ![e] = next]
     /\ next' = Max(now, next) + Interval
     /\ st' = [st EXCEPT ![e] = IF now < next THEN "sleeping" ELSE "ready"]
-    /\ up = 0 /\ up' = e
+    /\ \/ up = 0 /\ UNCHANGED upOuter
+       \/ Feedback /\ up # 0 /\ upOuter = 0 /\ st[up] = "emitting" /\ up \in busy /\ upOuter' = up     \* from inside the consumer of `up`
+    /\ up' = e
     \* the upstream _emit retains once around the call; rate_limit retains once more
     /\ rc' = [rc EXCEPT ![e] = @ + (IF Retain THEN 2 ELSE 1)]
     /\ UNCHANGED <<now, delivered, busy, emitDone, fired>>
@@ -50,7 +56,7 @@ Due(e) == st[e] = "ready" \/ (st[e] = "sleeping" /\ now >= slotAt[e])
 UpRelease(e) ==
     /\ up = e
     /\ st[e] \in {"sleeping", "done"} \/ (st[e] = "emitting" /\ e \in busy)
-    /\ up' = 0
+    /\ up' = upOuter /\ upOuter' = 0
     /\ rc' = [rc EXCEPT ![e] = @ - 1]
     /\ fired' = IF rc[e] - 1 <= 0 THEN Append(fired, e) ELSE fired
     /\ UNCHANGED <<arrived, st, slotAt, arrAt, next, now, delivered, busy, emitDone>>
@@ -65,11 +71,11 @@ RlEmit(e) ==
     /\ delivered' = Append(delivered, <<e, now>>)
     /\ st' = [st EXCEPT ![e] = "emitting"]
     /\ busy' = IF SyncCons THEN busy ELSE busy \cup {e}
-    /\ UNCHANGED <<arrived, slotAt, arrAt, next, now, rc, fired, emitDone, up>>
+    /\ UNCHANGED <<arrived, slotAt, arrAt, next, now, rc, fired, emitDone, up, upOuter>>
 
 ConsumerDone(e) ==
     /\ e \in busy /\ busy' = busy \ {e} /\ up = 0
-    /\ UNCHANGED <<arrived, st, slotAt, arrAt, next, now, delivered, rc, fired, emitDone, up>>
+    /\ UNCHANGED <<arrived, st, slotAt, arrAt, next, now, delivered, rc, fired, emitDone, up, upOuter>>
 
 \* the consumer's awaitable raises: the exception comes out of `yield self._emit` inside this element's update(),
 \* whose future carries it to the emitter; the reference is never released (the element is never reported as done);
@@ -77,13 +83,13 @@ ConsumerDone(e) ==
 ConsumerFail(e) ==
     /\ Faults /\ e \in busy /\ busy' = busy \ {e} /\ up = 0
     /\ st' = [st EXCEPT ![e] = "failed"]
-    /\ UNCHANGED <<arrived, slotAt, arrAt, next, now, delivered, rc, fired, emitDone, up>>
+    /\ UNCHANGED <<arrived, slotAt, arrAt, next, now, delivered, rc, fired, emitDone, up, upOuter>>
 
 \* the emitter sees the exception
 EmitRaised(e) ==
     /\ st[e] = "failed" /\ ~emitDone[e] /\ up = 0
     /\ emitDone' = [emitDone EXCEPT ![e] = TRUE]
-    /\ UNCHANGED <<arrived, st, slotAt, arrAt, next, now, delivered, busy, rc, fired, up>>
+    /\ UNCHANGED <<arrived, st, slotAt, arrAt, next, now, delivered, busy, rc, fired, up, upOuter>>
 
 \* downstream finished: release; the future returned by update() resolves
 RlRelease(e) ==
@@ -92,19 +98,19 @@ RlRelease(e) ==
     /\ IF Retain THEN /\ rc' = [rc EXCEPT ![e] = @ - 1]
                       /\ fired' = IF rc[e] - 1 <= 0 THEN Append(fired, e) ELSE fired
        ELSE UNCHANGED <<rc, fired>>
-    /\ UNCHANGED <<arrived, slotAt, arrAt, next, now, delivered, busy, emitDone, up>>
+    /\ UNCHANGED <<arrived, slotAt, arrAt, next, now, delivered, busy, emitDone, up, upOuter>>
 
 EmitDone(e) ==
     /\ st[e] = "done" /\ ~emitDone[e] /\ up = 0
     /\ emitDone' = [emitDone EXCEPT ![e] = TRUE]
-    /\ UNCHANGED <<arrived, st, slotAt, arrAt, next, now, delivered, busy, rc, fired, up>>
+    /\ UNCHANGED <<arrived, st, slotAt, arrAt, next, now, delivered, busy, rc, fired, up, upOuter>>
 
 \* the clock moves only when no timer is due and no coroutine is runnable
 Advance ==
     /\ now < MaxTime /\ up = 0
     /\ \A e \in Elems : ~Due(e)
     /\ now' = now + 1
-    /\ UNCHANGED <<arrived, st, slotAt, arrAt, next, delivered, busy, rc, fired, emitDone, up>>
+    /\ UNCHANGED <<arrived, st, slotAt, arrAt, next, delivered, busy, rc, fired, emitDone, up, upOuter>>
 
 Internal == \E e \in Elems : RlEmit(e) \/ RlRelease(e) \/ UpRelease(e)
 Next == (\E e \in Elems : Arrive(e) \/ ConsumerDone(e) \/ ConsumerFail(e) \/ EmitDone(e) \/ EmitRaised(e)) \/ Internal \/ Advance
@@ -130,7 +136,7 @@ OnTime == \A i \in 1 .. Len(delivered) : delivered[i][2] = Max(arrAt[delivered[i
 InFlight(e) == st[e] \in {"sleeping", "ready", "emitting", "failed"}      \* ("failed": never reported as done)
 CbSafe == \A i \in 1 .. Len(fired) : ~InFlight(fired[i])
 RcBalance == /\ \A e \in Elems : rc[e] >= 0
-             /\ \A e \in Elems : rc[e] = (IF InFlight(e) /\ Retain THEN 1 ELSE 0) + (IF up = e THEN 1 ELSE 0)
+             /\ \A e \in Elems : rc[e] = (IF InFlight(e) /\ Retain THEN 1 ELSE 0) + (IF up = e \/ upOuter = e THEN 1 ELSE 0)
              /\ \A e \in Elems : Cardinality({i \in 1 .. Len(fired) : fired[i] = e}) <= 1
-             /\ \A e \in Elems : (st[e] = "done" /\ up # e) => \E i \in 1 .. Len(fired) : fired[i] = e
+             /\ \A e \in Elems : (st[e] = "done" /\ up # e /\ upOuter # e) => \E i \in 1 .. Len(fired) : fired[i] = e
 =============================================================================
